@@ -508,8 +508,67 @@ def common_src(pre):
     return COMMON.replace("@UNIT_INCLUDES@", inc) + "\n" + pre + "\n"
 
 
-def write_harness(wd, units, insts, periods, nchunks=16):
-    """units: list of {"expr","pre"}; insts: list of {"id","u"(index),"rep"}. Returns source paths."""
+MATRIX_CONTEXTS = ["copyInit", "directInit", "braceInit", "assign", "argument", "returnValue", "staticCast"]
+
+MATRIX_TMPL = r'''
+// Trait matrix: for every target type and every syntactic context, whether ZERO is accepted — by SFINAE only, so this TU
+// compiles whatever the library accepts or rejects.  (zero.hh:37-48)
+#include <chrono>
+#include <cstdint>
+#include <cstdio>
+#include <limits>
+#include <ratio>
+#include <type_traits>
+#include <utility>
+#include "au/au.hh"
+template <class...> struct c19_make_void { using type = void; };
+template <class... Ts> using c19_void_t = typename c19_make_void<Ts...>::type;
+using ZRef = const au::Zero&;                     // the type of the expression `au::ZERO`
+template <class T> void c19_sink(T);
+template <class T, class = void> struct CanCast : std::false_type {};
+template <class T> struct CanCast<T, c19_void_t<decltype(static_cast<T>(std::declval<ZRef>()))>> : std::true_type {};
+template <class T, class = void> struct CanBrace : std::false_type {};
+template <class T> struct CanBrace<T, c19_void_t<decltype(T{std::declval<ZRef>()})>> : std::true_type {};
+template <class T, class = void> struct CanPass : std::false_type {};
+template <class T> struct CanPass<T, c19_void_t<decltype(c19_sink<T>(std::declval<ZRef>()))>> : std::true_type {};
+template <class T> static void flags() {
+    printf(" copyInit=%d directInit=%d braceInit=%d assign=%d argument=%d returnValue=%d staticCast=%d\n",
+           int(std::is_convertible<ZRef, T>::value), int(std::is_constructible<T, ZRef>::value), int(CanBrace<T>::value),
+           int(std::is_assignable<T&, ZRef>::value), int(CanPass<T>::value), int(std::is_convertible<ZRef, T>::value),
+           int(CanCast<T>::value));
+}
+template <class T> static void desc() {
+    printf(" bits=%d signed=%d fkind=%d", std::is_same<T, bool>::value ? 1 : int(sizeof(T) * 8), int(std::is_signed<T>::value),
+           std::is_floating_point<T>::value ? (std::numeric_limits<T>::digits == 24 ? 1 : std::numeric_limits<T>::digits == 53 ? 2 : 3) : 0);
+}
+template <class T> static void arith_row(const char* name) {
+    printf("M arith %s arithmetic=%d", name, int(std::is_arithmetic<T>::value)); desc<T>(); flags<T>();
+}
+template <class R, long long N, long long D> static void dur_row(const char* name) {
+    using Dur = std::chrono::duration<R, std::ratio<N, D>>;
+    printf("M dur %s num=%lld den=%lld pnum=%lld pden=%lld", name, N, D, (long long)Dur::period::num, (long long)Dur::period::den);
+    desc<R>(); flags<Dur>();
+}
+int main() {
+@ROWS@
+    return 0;
+}
+'''
+
+
+def tname(t):
+    return t.replace(" ", "_")
+
+
+def write_matrix(path, periods):
+    rows = [f'    arith_row<{t}>("{tname(t)}");' for t in ARITH_TYPES]
+    rows += [f'    dur_row<{r}, {n}LL, {d}LL>("{tname(r)}");' for r in DUR_REPS for (n, d) in periods]
+    open(path, "w").write(MATRIX_TMPL.replace("@ROWS@", "\n".join(rows)))
+
+
+def write_harness(wd, units, insts, periods, nchunks=16, arith_types=None, dur_targets=None):
+    """units: list of {"expr","pre"}; insts: list of {"id","u"(index),"rep"}. Returns source paths.
+    arith_types / dur_targets: the conversion targets the trait matrix found accepted in every context (default: all)."""
     pre = "".join(u.get("pre", "") for u in units)
     common = common_src(pre)
     chunks = [insts[i::nchunks] for i in range(nchunks)]
@@ -527,11 +586,10 @@ def write_harness(wd, units, insts, periods, nchunks=16):
             f.write("};\n")
         files.append(p)
     body = []
-    for t in ARITH_TYPES:
-        body.append(f'    arith_line<{t}>("{t.replace(" ", "_")}");')
-    for r in DUR_REPS:
-        for (n, d) in periods:
-            body.append(f'    dur_line<{r}, {n}LL, {d}LL>("{r.replace(" ", "_")}");')
+    for t in (ARITH_TYPES if arith_types is None else arith_types):
+        body.append(f'    arith_line<{t}>("{tname(t)}");')
+    for (r, n, d) in ([(r, n, d) for r in DUR_REPS for (n, d) in periods] if dur_targets is None else dur_targets):
+        body.append(f'    dur_line<{r}, {n}LL, {d}LL>("{tname(r)}");')
     p = os.path.join(wd, "main.cc")
     with open(p, "w") as f:
         f.write(common)
